@@ -228,3 +228,34 @@ def watched_inputs(fn):
 def inputs_intact(watched) -> bool:
     import numpy as _np
     return all(_np.array_equal(a, snap, equal_nan=True) if a.dtype.kind == "f" else _np.array_equal(a, snap) for a, snap in watched)
+
+
+class CallTimeout(BaseException):
+    """a single library call exceeded its time limit (an endless loop in changed code)"""
+
+
+class time_limited:
+    """Context manager (main thread only): raises CallTimeout inside the guarded call after `seconds`.  Python-level loops are
+    interrupted; a loop inside compiled code is not - that case is left to the watchdog of ./check."""
+
+    def __init__(self, seconds: float = 30.0):
+        self.seconds = seconds
+        self.armed = False
+
+    def __enter__(self):
+        import signal
+        import threading
+        if threading.current_thread() is threading.main_thread():
+            def _raise(signum, frame):
+                raise CallTimeout(f"no return within {self.seconds} s")
+            self.old = signal.signal(signal.SIGALRM, _raise)
+            signal.setitimer(signal.ITIMER_REAL, self.seconds)
+            self.armed = True
+        return self
+
+    def __exit__(self, *exc):
+        import signal
+        if self.armed:
+            signal.setitimer(signal.ITIMER_REAL, 0)
+            signal.signal(signal.SIGALRM, self.old)
+        return False
